@@ -59,7 +59,7 @@ theorem pass_cases (lt : α → α → Bool) (comb) (pick) (sizes) (runs : List 
   match runs with
   | [] => left; exact ⟨by simp, by simp [pass, storeRuns_eq]⟩
   | [r] => left; exact ⟨by simp, by simp [pass, storeRuns_eq]⟩
-  | r1 :: r2 :: rs => right; exact ⟨by simp, by simp [pass, storeRuns_eq]⟩
+  | r1 :: r2 :: rs => right; exact ⟨by simp, by simp only [pass, storeRunsLogged_merge, storeRuns_eq]⟩
 
 theorem groups_sorted {lt : α → α → Bool} {sizes} {runs : List (List α)} (hr : AllSorted lt runs) :
     ∀ g ∈ splitGroups sizes runs, AllSorted lt g :=
@@ -165,7 +165,13 @@ theorem blockSort_sorted {lt : α → α → Bool} (h : StrictWeak lt) (b : List
 theorem blockSort_perm (lt : α → α → Bool) (b : List α) : blockSort lt b ~ b := mergeSort_perm b _
 
 theorem afterBlockSorter_eq (lt : α → α → Bool) (blocks : List (List α)) :
-    afterBlockSorter lt blocks = some (nonempties (blocks.map (blockSort lt))) := storeRuns_eq _
+    afterBlockSorter lt blocks = some (nonempties (blocks.map (blockSort lt))) := by
+  have hl : blocks.map List.length = (blocks.map (blockSort lt)).map List.length := by
+    rw [List.map_map]
+    exact List.map_congr_left (fun b _ => ((mergeSort_perm b (le lt)).length_eq).symm)
+  unfold afterBlockSorter
+  rw [hl]
+  exact storeRuns_eq _
 
 theorem flatten_map_blockSort_perm (lt : α → α → Bool) : ∀ (blocks : List (List α)),
     (blocks.map (blockSort lt)).flatten ~ blocks.flatten
